@@ -31,7 +31,7 @@ func (ls *leafStats) add(sn Seen, o TObs) {
 			ls.ops[p]++
 		}
 	}
-	if len(o.Path) > 3 {
+	if len(o.Path) > 3 && sn.Item.Case != nil {
 		ls.zones[o.Path[1]+"/"+o.Path[2]+"/"+sn.Item.Case.Comp]++
 	}
 	ls.mu.Unlock()
